@@ -229,6 +229,8 @@ func checkC05(e *RunEnv) *CheckResult {
 			cases = append(cases, Case{Base: base, BaseName: "S0", BaseSeed: seedS0(), Steps: steps})
 		}
 		cases = append(cases, Case{Base: base, BaseName: "S0", BaseSeed: seedS0(), Steps: bigSnapshotSteps()})
+		// one directory whose tree exceeds 4 KiB (150 entries) / 32 KiB (900 entries), names of 250 and 255 bytes, identical sub-trees
+		cases = append(cases, Case{Base: base, BaseName: "S0", BaseSeed: seedS0(), Steps: hugeDirSteps(150)}, Case{Base: base, BaseName: "S0", BaseSeed: seedS0(), Steps: hugeDirSteps(900)})
 		sweep = x.RunCases(cases)
 		// blob ids and sub-tree ids containing 0x00, 0x20, 0x0a at each of the 20 positions
 		var sp []Case
